@@ -640,17 +640,41 @@ def _container_case(case):
         if {k: (s.frames, s.clamp, s.duration) for k, s in back.sheet_info.items()} != \
                 {k: (s.frames, s.clamp, s.duration) for k, s in vtf.sheet_info.items()}:
             return 'sheet sequences differ'
+    def same_content(data, what):
+        """Storing again changes nothing: same size, same metadata, same pixels in every frame.  (The 16x16 thumbnail is
+        not one of the frames: save() regenerates it from the - now quantised - image, so its bytes may differ from the
+        first save; the property speaks about the frames.)"""
+        if data == first:
+            return None
+        if len(data) != len(first):
+            return f'{what}: {len(first)} bytes became {len(data)}'
+        again = VTF.read(io.BytesIO(data))
+        again.load()
+        for attr in ('width', 'height', 'depth', 'frame_count', 'mipmap_count', 'flags', 'format', 'low_format', 'version',
+                     'bumpmap_scale'):
+            if getattr(again, attr) != getattr(back, attr):
+                return f'{what}: {attr} {getattr(back, attr)!r} became {getattr(again, attr)!r}'
+        if tuple(again.reflectivity) != tuple(back.reflectivity) or set(again._frames) != set(back._frames):
+            return f'{what}: reflectivity or frame set changed'
+        for key, frame in back._frames.items():
+            other = again._frames[key]
+            if (frame.width, frame.height) != (other.width, other.height) or \
+                    bytes(frame._data or b'') != bytes(other._data or b''):
+                return f'{what}: pixels of frame {key} changed'
+        if {k: (r.flags & ~2, r.data) for k, r in again.resources.items()} != \
+                {k: (r.flags & ~2, r.data) for k, r in back.resources.items()}:
+            return f'{what}: resources changed'
+        return None
     buf2 = io.BytesIO()
     back.save(buf2)
-    if buf2.getvalue() != first:
-        return 'second save is not byte-identical'
+    bad = same_content(buf2.getvalue(), 'second save')
+    if bad:
+        return bad
     # the same for a lazily read file: frames still backed by the stream when save() is called
     lazy = VTF.read(io.BytesIO(first))
     buf3 = io.BytesIO()
     lazy.save(buf3)
-    if buf3.getvalue() != first:
-        return 'saving a freshly read (not yet loaded) VTF is not byte-identical'
-    return None
+    return same_content(buf3.getvalue(), 'saving a freshly read (not yet loaded) VTF')
 
 
 CONTAINER_FORMATS = ['rgba8888', 'bgra8888', 'argb8888', 'abgr8888', 'rgb888', 'bgr888', 'bgrx8888', 'rgb565',
